@@ -839,13 +839,13 @@ func (fc *FnCtx) doAppend(fr *Frame, st *State, instr ssa.Instruction, c *ssa.Ca
 	if true {
 		// realloc copy: new array equals old shifted by off; expressed with a quantified fact
 		fresharr := fc.fresh("apparrc", arrSort(SInt, es))
-		fc.assume(st, T(SBool, fmt.Sprintf("(forall ((k Int)) (! (=> (and (<= 0 k) (< k %s)) (= (select %s k) (select %s (+ %s k)))) :pattern ((select %s k))))",
+		fc.assume(st, T(SBool, fmt.Sprintf("(forall ((k Int)) (! (=> (and (<= 0 k) (< k %s)) (= (select %s (ix 0 k)) (select %s (ix %s k)))) :pattern ((select %s (ix 0 k)))))",
 			slLen(st0).S, fresharr.S, base.S, slOff(st0).S, fresharr.S)))
 		content = tIte(fits, base, fresharr)
 	}
 	content = fc.nameTerm("appc", content)
 	for i, e := range elems {
-		content = tStore(content, tAdd(off, tAdd(slLen(st0), intLit(int64(i)))), e)
+		content = tStore(content, tIx(off, tAdd(slLen(st0), intLit(int64(i)))), e)
 	}
 	fc.setHeap(st, hn, tStore(h, arr, content))
 	return fc.nameTerm("app", mkSlice(arr, off, tAdd(slLen(st0), intLit(n)), cp))
@@ -861,12 +861,12 @@ func (fc *FnCtx) appendSlice(st *State, s, t Term, es, hn string, resT types.Typ
 	fresharr := fc.fresh("apparrc", arrSort(SInt, es))
 	sb := tSelect(h, slArr(s))
 	tb := tSelect(h, slArr(t))
-	qdef := T(SBool, fmt.Sprintf("(forall ((k Int)) (! (and (=> (and (<= 0 k) (< k %s)) (= (select %s k) (select %s (+ %s k)))) (=> (and (<= %s k) (< k %s)) (= (select %s k) (select %s (+ %s (- k %s)))))) :pattern ((select %s k))))",
+	qdef := T(SBool, fmt.Sprintf("(forall ((k Int)) (! (and (=> (and (<= 0 k) (< k %s)) (= (select %s (ix 0 k)) (select %s (ix %s k)))) (=> (and (<= %s k) (< k %s)) (= (select %s (ix 0 k)) (select %s (ix %s (- k %s)))))) :pattern ((select %s (ix 0 k)))))",
 		slLen(s).S, fresharr.S, sb.S, slOff(s).S, slLen(s).S, nl.S, fresharr.S, tb.S, slOff(t).S, slLen(s).S, fresharr.S))
 	// the same definition as an array lambda for the z3 family (decided by beta-reduction); cvc5 gets the
 	// quantified twin (it has no array lambdas), z3 only the lambda (the quantified form made it diverge)
 	junk := fc.fresh("appjunk", arrSort(SInt, es))
-	ldef := T(SBool, fmt.Sprintf("(= %s (lambda ((k Int)) (ite (and (<= 0 k) (< k %s)) (select %s (+ %s k)) (ite (and (<= %s k) (< k %s)) (select %s (+ %s (- k %s))) (select %s k)))))",
+	ldef := T(SBool, fmt.Sprintf("(= %s (lambda ((k Int)) (ite (and (<= 0 k) (< k %s)) (select %s (ix %s k)) (ite (and (<= %s k) (< k %s)) (select %s (ix %s (- k %s))) (select %s k)))))",
 		fresharr.S, slLen(s).S, sb.S, slOff(s).S, slLen(s).S, nl.S, tb.S, slOff(t).S, slLen(s).S, junk.S))
 	fc.assertions = append(fc.assertions, "#cvc5#"+tImp(st.pc, qdef).S, "#z3#"+tImp(st.pc, ldef).S)
 	fc.setHeap(st, hn, tStore(h, newArr, fresharr))
